@@ -64,6 +64,14 @@ pub fn convert_grammar_functions_to_semantic_functions(
         }
 
         if let Some(index) = index {
+            if index < output.len() {
+                anyhow::bail!(
+                    "vftable function `{}` is declared at index {index}, but the {} functions before it already reach index {}",
+                    function.name,
+                    output.len(),
+                    output.len()
+                );
+            }
             make_padding_functions(&mut output, index);
         }
         let Some(function) = function::build(type_registry, &module.scope(), true, function)
@@ -76,6 +84,12 @@ pub fn convert_grammar_functions_to_semantic_functions(
 
     // Pad out to target size
     if let Some(size) = size {
+        if size < output.len() {
+            anyhow::bail!(
+                "vftable has {} functions, which is more than its declared size of {size}",
+                output.len()
+            );
+        }
         make_padding_functions(&mut output, size);
     }
 
